@@ -133,11 +133,46 @@ template <typename T> bool logical_equals(const arr<T> &x, const std::vector<T> 
 }
 
 template <typename T>
+void check_pair(const reg<T> &e, const Family &fam, ssize_t X, ssize_t N, ssize_t M, Caller<T> &a, Caller<T> &b, int regime);
+
+template <typename T>
 void check_one(const reg<T> &e, const Family &fam, ssize_t X, ssize_t N, ssize_t M, Rng &rng, int regime, Layout la, Layout lb) {
-    const char tc = sizeof(T) == 4 ? 'f' : 'd';
-    const std::string &name = e.name;
     Caller<T> a = make_caller<T>(fam.nd1 == 2 ? std::vector<ssize_t>{N, 3} : std::vector<ssize_t>{X, N, 3}, la, rng, regime);
     Caller<T> b = make_caller<T>({M, 3}, lb, rng, regime);
+    check_pair<T>(e, fam, X, N, M, a, b, regime);
+}
+
+long n_alias_calls = 0, n_alias_same_start = 0, n_alias_identical = 0, n_alias_overlap = 0;
+
+// both arguments are views of ONE caller array (coords[:k] against coords, ens.coords against ens.coords[x], the same
+// array twice, overlapping windows): what a kernel may conclude from equal data pointers must still be right
+template <typename T>
+void check_alias(const reg<T> &e, const Family &fam, Rng &rng, int regime, ssize_t X, ssize_t K, ssize_t i0, ssize_t N, ssize_t j0, ssize_t M) {
+    // base: (K,3) for the 2-d family, (X,K,3) for the 3-d one; first = base[i0:i0+N] / base[:, i0:i0+N]; second = base[j0:j0+M] / base[x, j0:j0+M]
+    Caller<T> base = make_caller<T>(fam.nd1 == 2 ? std::vector<ssize_t>{K, 3} : std::vector<ssize_t>{X, K, 3}, L_C, rng, regime);
+    const ssize_t sz = ssize_t(sizeof(T));
+    Caller<T> a, b;
+    ssize_t xrow = fam.nd1 == 2 ? 0 : (X ? rng.below(X) : 0);
+    if (fam.nd1 == 2) a.a = base.a.view({N, 3}, {3 * sz, sz}, i0 * 3);
+    else a.a = base.a.view({X, N, 3}, {K * 3 * sz, 3 * sz, sz}, i0 * 3);
+    b.a = base.a.view({M, 3}, {3 * sz, sz}, (xrow * K + j0) * 3);
+    if (fam.nd1 == 3 && X == 0) b.a = base.a.view({M, 3}, {3 * sz, sz}, 0);
+    a.lay = a.a.c_contiguous() ? L_C : L_FIRSTSTEP; b.lay = L_C;
+    a.base0 = base.base0;                                         // the shared allocation is compared once, through `a`
+    a.logical.resize(size_t(a.a.size())); b.logical.resize(size_t(b.a.size()));
+    for (ssize_t k = 0; k < a.a.size(); ++k) a.logical[size_t(k)] = a.a.logical(k);
+    for (ssize_t k = 0; k < b.a.size(); ++k) b.logical[size_t(k)] = b.a.logical(k);
+    ++n_alias_calls;
+    if (a.a.size() && b.a.size() && a.a.data() == b.a.data()) { ++n_alias_same_start; if (fam.nd1 == 2 && N == M) ++n_alias_identical; }
+    if (i0 < j0 + M && j0 < i0 + N) ++n_alias_overlap;
+    check_pair<T>(e, fam, X, N, M, a, b, regime);
+}
+
+template <typename T>
+void check_pair(const reg<T> &e, const Family &fam, ssize_t X, ssize_t N, ssize_t M, Caller<T> &a, Caller<T> &b, int regime) {
+    const char tc = sizeof(T) == 4 ? 'f' : 'd';
+    const std::string &name = e.name;
+    const Layout la = a.lay, lb = b.lay;
     const std::vector<T> &a0 = a.logical, &b0 = b.logical;
     const bool noncontig = !a.a.c_contiguous() || !b.a.c_contiguous();
     pybind11::c19::call_record<T> rec;
@@ -236,6 +271,34 @@ void layout_sweep(const table_t<T> &table, uint64_t seed, int rounds) {
     }
 }
 
+// alias sweep: see check_alias
+template <typename T>
+void alias_sweep(const table_t<T> &table, uint64_t seed, int rounds) {
+    for (const auto &e : table) {
+        Family fam = family(e.name);
+        if (!fam.known) continue;
+        Rng rng{name_seed(seed, e.name, sizeof(T), 4242)};
+        for (int round = 0; round < rounds; ++round)
+            for (int regime = 0; regime < 5; ++regime) {
+                static const ssize_t KS[] = {1, 2, 3, 8, 33};
+                for (ssize_t K : KS) {
+                    const ssize_t X = fam.nd1 == 2 ? 1 : 1 + rng.below(3);
+                    check_alias<T>(e, fam, rng, regime, X, K, 0, K, 0, K);               // the same array twice
+                    check_alias<T>(e, fam, rng, regime, X, K, 0, K, 0, 0);               // a, a[:0]
+                    check_alias<T>(e, fam, rng, regime, X, K, 0, 0, 0, K);               // a[:0], a
+                    for (int extra = 0; extra < 6; ++extra) {
+                        ssize_t n = rng.below(K + 1), m = rng.below(K + 1);
+                        check_alias<T>(e, fam, rng, regime, X, K, 0, n, 0, K);           // a[:n], a
+                        check_alias<T>(e, fam, rng, regime, X, K, 0, K, 0, m);           // a, a[:m]
+                        check_alias<T>(e, fam, rng, regime, X, K, 0, n, 0, m);           // a[:n], a[:m]
+                        ssize_t i0 = rng.below(K + 1), j0 = rng.below(K + 1);
+                        check_alias<T>(e, fam, rng, regime, X, K, i0, rng.below(K - i0 + 1), j0, rng.below(K - j0 + 1));   // windows
+                    }
+                }
+            }
+    }
+}
+
 // ---- threads: every thread calls every kernel on the SAME input arrays; results must equal the serial ones bit for bit
 std::atomic<int> gate{0};
 std::atomic<long> thread_mismatch{0}, thread_calls{0};
@@ -294,6 +357,8 @@ int main(int argc, char **argv) {
     if (mode == "ref") {
         uint64_t seed = argc > 2 ? std::strtoull(argv[2], nullptr, 10) : 0; int rounds = argc > 3 ? std::atoi(argv[3]) : 1;
         // layouts first: what is printed before a sanitizer abort then already names the layouts that give wrong values
+        alias_sweep<float>(m.f32, seed, rounds);
+        alias_sweep<double>(m.f64, seed, rounds);
         layout_sweep<float>(m.f32, seed, rounds);
         layout_sweep<double>(m.f64, seed, rounds);
         sweep<float>(m.f32, seed, rounds);
@@ -302,6 +367,7 @@ int main(int argc, char **argv) {
         for (int l = 0; l < L_COUNT; ++l) std::printf("LAYOUT %s %ld\n", LNAME[l], n_layout[l]);
         std::printf("NONCONTIGCALLS %ld\nNONCONTIGELEMS %ld\nCASTCOPY %ld\nCASTPASS %ld\nPASSNONCONTIG %ld\n",
                     n_noncontig_calls, n_noncontig_elems, n_cast_copy, n_cast_pass, n_pass_noncontig);
+        std::printf("ALIASCALLS %ld\nALIASSAMESTART %ld\nALIASIDENTICAL %ld\nALIASOVERLAP %ld\n", n_alias_calls, n_alias_same_start, n_alias_identical, n_alias_overlap);
         for (auto &kv : mm_by_layout) std::printf("MMCOUNT %s %ld\n", kv.first.c_str(), kv.second);
     } else if (mode == "threads") {
         int n = argc > 2 ? std::atoi(argv[2]) : 8; uint64_t seed = argc > 3 ? std::strtoull(argv[3], nullptr, 10) : 0;
